@@ -81,8 +81,40 @@ func plainValue(v any) any {
 	return v
 }
 
+// caseSchema builds the schema of a case. With "components" the schema and its components go through the real
+// Loader (so that `$ref`s are resolved and SchemaRef.Ref is set, which the discriminator logic reads).
+func caseSchema(c hx.Case) (*openapi3.Schema, error) {
+	comps, ok := c["components"].(map[string]any)
+	if !ok || len(comps) == 0 {
+		return parseSchema(c["schema"])
+	}
+	schemas := map[string]any{"VerifRoot": c["schema"]}
+	for k, v := range comps {
+		schemas[k] = v
+	}
+	doc := map[string]any{"openapi": "3.0.0", "info": map[string]any{"title": "t", "version": "1"}, "paths": map[string]any{},
+		"components": map[string]any{"schemas": schemas}}
+	b, err := json.Marshal(doc)
+	if err != nil {
+		return nil, err
+	}
+	if s, ok := schemaCache.Load("doc:" + string(b)); ok {
+		return s.(*openapi3.Schema), nil
+	}
+	d, err := openapi3.NewLoader().LoadFromData(b)
+	if err != nil {
+		return nil, err
+	}
+	ref := d.Components.Schemas["VerifRoot"]
+	if ref == nil || ref.Value == nil {
+		return nil, fmt.Errorf("root schema not resolved")
+	}
+	schemaCache.Store("doc:"+string(b), ref.Value)
+	return ref.Value, nil
+}
+
 func runC01(c hx.Case) any {
-	s, err := parseSchema(c["schema"])
+	s, err := caseSchema(c)
 	if err != nil {
 		return map[string]any{"kind": "schema-unmarshal-error", "err": err.Error()}
 	}
@@ -368,7 +400,55 @@ func randValue(r *hx.Rng, depth int) any {
 	return hx.Pick(r, c01Values[:18])
 }
 
+// discriminator family: components A, B (objects told apart by property "t") and oneOf schemas over them
+func c01DiscCases() []hx.Case {
+	refA, refB := "#/components/schemas/A", "#/components/schemas/B"
+	comps := map[string]any{
+		"A": map[string]any{"type": "object", "required": []any{"a"}, "properties": map[string]any{"t": map[string]any{"type": "string"}, "a": map[string]any{"type": "integer"}}},
+		"B": map[string]any{"type": "object", "properties": map[string]any{"t": map[string]any{"type": "string"}, "b": map[string]any{"type": "string", "maxLength": 2}}},
+	}
+	ra, rb := map[string]any{"$ref": refA}, map[string]any{"$ref": refB}
+	inlineC := map[string]any{"type": "object", "required": []any{"c"}}
+	mappings := []any{nil, map[string]any{}, map[string]any{"a": refA, "b": refB}, map[string]any{"a": refA}, map[string]any{"a": refB, "b": refA},
+		map[string]any{"a": refA, "x": "#/components/schemas/Nowhere"}, map[string]any{"a": ""}}
+	oneOfs := [][]any{{ra, rb}, {ra}, {rb, ra, inlineC}, {inlineC, ra}}
+	values := []any{
+		map[string]any{"t": "a", "a": 1}, map[string]any{"t": "a", "a": "x"}, map[string]any{"t": "b"}, map[string]any{"t": "b", "b": "toolong"},
+		map[string]any{"t": "b", "a": 1}, map[string]any{"t": 5, "a": 1}, map[string]any{"t": nil}, map[string]any{"a": 1}, map[string]any{},
+		map[string]any{"t": "zzz", "a": 1}, map[string]any{"t": "x", "c": 1}, map[string]any{"t": "a", "a": 1, "c": 1}, "str", nil, []any{map[string]any{"t": "a"}}, 7,
+	}
+	var out []hx.Case
+	for _, oo := range oneOfs {
+		for _, m := range mappings {
+			for _, prop := range []string{"t", "a"} {
+				for _, extra := range []map[string]any{nil, {"type": "object"}, {"nullable": true}, {"required": []any{"t"}}} {
+					disc := map[string]any{"propertyName": prop}
+					if m != nil {
+						disc["mapping"] = m
+					}
+					sch := map[string]any{"oneOf": oo, "discriminator": disc}
+					for k, v := range extra {
+						sch[k] = v
+					}
+					for _, v := range values {
+						out = append(out, hx.Case{"schema": sch, "components": comps, "value": v})
+						// the discriminated schema one level down
+						out = append(out, hx.Case{"schema": map[string]any{"properties": map[string]any{"p": sch}}, "components": comps, "value": map[string]any{"p": v}})
+					}
+				}
+			}
+		}
+	}
+	return out
+}
+
 func genC01(ctx *hx.Ctx, emit func(hx.Case)) {
+	for i, c := range c01DiscCases() {
+		if !ctx.Thorough() && i%2 == 1 && i%7 != 0 {
+			continue
+		}
+		emit(withOracle(c))
+	}
 	for _, s := range c01Schemas(ctx) {
 		for _, v := range c01Values {
 			emit(withOracle(hx.Case{"schema": s, "value": v}))
